@@ -493,6 +493,9 @@ class Path:
             return SymFloat(b)
         if k in ('key', 'map', 'set', 'kseq', 'relmap'):   # containers
             return containers.fresh(self, typ, name)
+        if k == 'opaque' and typ[1] == 'AbsList':   # abslist
+            from . import abslist
+            return abslist.fresh(self, name)
         if k == 'opaque':
             return Opaque(f'{name}:{typ[1]}')
         if k == 'any':
@@ -855,6 +858,10 @@ class Path:
                 r = mapseq.comp_over_seq(self, node, inner, it_, 'list')
                 if r is not seqs.NOT_HANDLED:
                     raise mapseq.LazyComp(r)
+            if type(it_).__name__ == 'AbsList':   # abslist: splice of an abstract list
+                from . import abslist
+                out.append(abslist.comp_splice(self, node, i, it_))
+                return
             for item in self.iterate(it_):
                 self.assign(g.target, item, inner)
                 ok = True
@@ -869,6 +876,9 @@ class Path:
             rec(0)
         except LazyComp_ as e:   # mapseq
             return e.seq
+        if out and any(type(x).__name__ == 'Splice' for x in out):   # abslist
+            from . import abslist
+            return abslist.comp_result(out)
         return out
 
     def ev_Yield(self, node, fr):   # eagergen
@@ -925,6 +935,9 @@ class Path:
             return strings.truthy(self, v)
         if type(v).__name__ in ('MatchV', 'RegexV'):
             return True
+        if type(v).__name__ == 'AbsList':   # abslist
+            from . import abslist
+            return abslist.truthy(self, v)
         raise Unsupported(f'truthiness of {v!r}')
 
     def binop(self, op, a, b, node=None):
